@@ -62,14 +62,25 @@ def families(tier):
         _grid(model=["fixed"], policy=["LIFO", "Priority"], conc=[1, 2], cap=[None]),
         patterns(3, T3, H4, (1, 2), prios=(0, 1)) if not q else patterns(3, T3, H4, (1,), prios=(0, 1)), chunks=4,
         requests="1..3", priorities=[0, 1])
+    dyn = dict(model="dynamic", policy="FIFO", cap=None)
     fam("Server-dynamic", "Server",
-        [c for c in _grid(model=["dynamic"], policy=["FIFO"], conc=[1, 2], cap=[None],
-                          knob=[[], [(1, 2)], [(1, 1), (2, 2)]] if q
-                          else [[], [(1, 2)], [(1, 1)], [(2, 3)], [(1, 1), (2, 2)]],
-                          ctl_first=[True, False]) if c["knob"] or c["ctl_first"]],
+        [dict(dyn, conc=c, knob=[], ctl_first=True) for c in (1, 2)]
+        + [dict(dyn, conc=1, knob=[(1, 2)], ctl_first=f) for f in (True, False)]
+        + [dict(dyn, conc=2, knob=[(1, 1), (2, 2)], ctl_first=f) for f in (True, False)]
+        + ([] if q else [dict(dyn, conc=c, knob=k, ctl_first=f) for c in (1, 2) for k in ([(1, 1)], [(2, 3)])
+                         for f in (True, False)]),
         patterns(3, T3, H4, (1, 2)), chunks=4,
         requests="1..3", service_tick_sequences=[1, 2], initial_limit=[1, 2],
         set_limit_schedules=["none", "t1->2", "t1->1,t2->2"] if q else ["none", "t1->2", "t1->1", "t2->3", "t1->1,t2->2"],
+        control_events_created=["before the arrivals", "after the arrivals"])
+    # a limit DECREASE issued on arrival instants, itself travelling through 0..3 forwarders (both creation
+    # orders): it can land between the queue's dequeue and the worker's receipt of a request
+    fam("Server-dynamic-scale-down", "Server",
+        [dict(dyn, conc=2, knob=k, knob_hops=h, ctl_first=f) for k in ([(1, 1)], [(2, 1)]) for h in (0, 1, 2, 3)
+         for f in (True, False)],
+        list(patterns(3, T3, H4, (1,))) + list(patterns(3, T3, H4, (2,))) if q else patterns(3, T3, H4, (1, 2)),
+        chunks=2, requests="1..3", service_tick_sequences=["all 1", "all 2"] if q else [1, 2], initial_limit=[2],
+        set_limit_schedules=["t1->1", "t2->1"], limit_change_hops=[0, 1, 2, 3],
         control_events_created=["before the arrivals", "after the arrivals"])
     fam("Server-weighted", "Server", _grid(model=["weighted"], policy=["FIFO"], conc=[2, 3], cap=[None]),
         patterns(3, T3, H4, (1,) if q else (1, 2), weights=(1, 2)), chunks=4,
@@ -77,6 +88,17 @@ def families(tier):
     fam("Server-native-capacity", "Server",
         _grid(model=["int"], policy=["FIFO"], conc=[1], cap=[1, 2], native_cap=[True]),
         patterns(3, T3, H4, (1, 2)), chunks=4, requests="1..3", queue_capacity=[1, 2])
+    # -- Server in front of time-based / adaptive policies (Queue.dispatch_guard looks at peek(), then pops) ---------
+    fam("Server-Deadline", "Server", _grid(model=["int"], policy=["Deadline"], conc=[1], cap=[None]),
+        list(patterns(3, T3, H4, (2,), prios=(1, 5)))
+        + list(patterns(4, (0, 1), (0,), (2,), prios=(1, 5, 9), n_min=4)), chunks=4,
+        requests="1..3 (+ bursts of 4 over ticks {0,1}, hop 0, deadlines {1,5,9})", service_ticks=[2],
+        relative_deadline_ticks=[1, 5], note="deadline = creation tick + relative deadline on the simulation clock; "
+        "heads expire while the worker is busy")
+    fam("Server-Adaptive-CoDel", "Server", _grid(model=["int"], policy=["Adaptive", "CoDel"], conc=[1], cap=[None]),
+        list(patterns(3, T3, H4, (2,))) + list(patterns(4, (0, 1), (0, 1), (1, 3), n_min=4)), chunks=2,
+        requests="1..3 (+ bursts of 4 over ticks {0,1} x hops {0,1})", service_ticks=[2, "1,3 in bursts"],
+        policies=["AdaptiveLIFO(threshold 2)", "CoDelQueue(target 1 s, interval 1 s)"])
     # -- two stages feeding one another ----------------------------------------------------------------
     fam("Tandem-QR", "QR", _grid(policy=["FIFO"], conc=[1, 2], cap=[None], stages=[2]),
         patterns(3, T3, H4, (1, 2)), chunks=4, requests="1..3", stages=2, service_ticks=[1, 2])
